@@ -37,7 +37,8 @@ Objects (c2profile.py's `StringIterator`; run-time: lean/CsVerif/Model/PyU_T12.l
               second reference to the object can exist
   StopIteration   `raise StopIteration`; a function that can raise it lives in the monad `PyU.PyS` (`PyExc` + StopIteration)
   more        list comprehensions `[e for x in it if c]`, `repr(x)`, `ord(x)`, `chr(x)`, `bytes(x)`, `int(x, base)`, `x.replace(a, b)`,
-              `sep.join(xs)`
+              `sep.join(xs)`, `for i, x in enumerate(xs):`; reads of a mutable variable that hand out no reference to it
+              (`x in v`, `len(v)`, `enumerate(v)`, `v[i]`; see `_Fn.t12_allowed`)
 
 File objects, generators, file-owning instances (utils.iter_find_needle, artifact.iter_artifactkit_payloads, xordecode.py;
 run-time: lean/CsVerif/Model/PyU_T15.lean; plug-ins gen/py_scan.py, gen/py_xor.py)
@@ -1539,7 +1540,7 @@ class _Fn:
                         f"{P}let {new} ← PyU.{'iadd' if isinstance(op, ast.Add) else BINOP[type(op)]} {old} {t}"]
                     t = new
                 r = self.fresh()
-                out += p + [f"{P}let {r} ← PyU.setAttr {me} {lean_string(attr)} {t}", f"{P}{me} := {r}"]
+                out += p + [f"{P}let {r} ← PyU.setAttrObj {me} {lean_string(attr)} {t}", f"{P}{me} := {r}"]
             elif isinstance(st, ast.Raise):
                 exc = st.exc
                 name = exc.func.id if isinstance(exc, ast.Call) and isinstance(exc.func, ast.Name) else (exc.id if isinstance(exc, ast.Name) else None)
